@@ -322,6 +322,8 @@ async def correspond(ctx):
         st.programs = len({c[0] for c in cases}) + 1
     finally:
         L.close()
+    await correspond_api(ctx)
+    st.programs += len([k for k in st.distribution if k.startswith("api.")])
 
 
 def _show(ans: str) -> str:
@@ -331,6 +333,507 @@ def _show(ans: str) -> str:
                         for t in ans.split(" "))
     except Exception:  # noqa: BLE001
         return ans
+
+
+# ---------------------------------------------------------------------------------------------
+# API level: the glue around translate / translate_back in stepup.core.api and extapi
+# ---------------------------------------------------------------------------------------------
+
+API_ROOTS = ["r", "projects/work", "t/u/proj"]
+API_ENV_KEYS = ("STEPUP_ROOT", "HERE", "STEPUP_JOB_I", "STEPUP_STEP_NEED", "STEPUP_DIRECTOR_SOCKET", "C20VAR")
+WRAPPERS = ["run", "plan", "script", "call", "copy", "record_subprocess"]
+
+
+def _j(*parts):
+    return posixpath.normpath(posixpath.join(*[p for p in parts if p != ""])) if any(parts) else ""
+
+
+class ApiLayout:
+    """A real tree with the project root at a chosen depth, named parents, siblings and an outside tree."""
+
+    def __init__(self, root_rel: str):
+        self.base = os.path.realpath(tempfile.mkdtemp(prefix="verif-c20api-"))
+        self.root_rel = root_rel
+        self.name = posixpath.basename(root_rel)
+        self.parent_rel = posixpath.dirname(root_rel)
+        inside = ["", "sub", "sub/deep", "a", "a b", "é", self.name, self.name + "/sub"]
+        self.inside = [_j(root_rel, d) for d in inside]
+        self.outside = [_j(self.parent_rel, d) for d in ("other", "other/sub", "public")] + ["common", "common/x"]
+        if self.parent_rel:
+            self.outside.append(self.parent_rel)
+        self.dirs = self.inside + self.outside
+        for d in self.dirs:
+            os.makedirs(os.path.join(self.base, d), exist_ok=True)
+            for f in ("data.txt", "tool.sh", "x.txt"):
+                with open(os.path.join(self.base, d, f), "w") as fh:
+                    fh.write("x")
+        self.root = os.path.join(self.base, root_rel)
+
+    def sub(self, s):
+        return None if s is None else s.replace(BASE, self.base)
+
+    def close(self):
+        shutil.rmtree(self.base, ignore_errors=True)
+
+
+def _spell(r, target: str, frm: str, L: ApiLayout) -> str:
+    """A spelling of the base-relative location `target` as seen from the base-relative directory `frm`."""
+    plain = posixpath.relpath("/" + target, "/" + frm)
+    k = r.random()
+    root = L.root_rel
+    if k < 0.40:
+        return plain
+    if k < 0.60 and (target == root or target.startswith(root + "/")):
+        # leave the root (or stay outside) and re-enter it through its own directory name
+        up = posixpath.relpath("/" + L.parent_rel, "/" + frm)
+        rest = posixpath.relpath("/" + target, "/" + root)
+        return posixpath.join(up, L.name, rest) if rest != "." else posixpath.join(up, L.name)
+    if k < 0.70:
+        return "./" + plain
+    if k < 0.78:
+        return "x/../" + plain
+    if k < 0.84:
+        return plain.replace("/", "//", 1) if "/" in plain else "././" + plain
+    if k < 0.92:
+        return BASE + "/" + target
+    return posixpath.join(posixpath.relpath("/", "/" + frm), "..", "..", target)  # climbs above the base and beyond /
+
+
+def gen_api_case(r, L: ApiLayout) -> dict:
+    cwd = r.choice(L.inside) if r.random() < 0.55 else r.choice(L.outside)
+    here = posixpath.relpath("/" + cwd, "/" + L.root_rel)
+    k = r.random()
+    if k < 0.12:
+        root_env, here_env = None, None  # a plan run by hand: the current directory is the root
+    else:
+        root_env = r.choice([BASE + "/" + L.root_rel] * 4 + [BASE + "/" + L.root_rel + "/",
+                            BASE + "/./" + L.root_rel, posixpath.relpath("/" + L.root_rel, "/" + cwd)])
+        here_env = r.choice([here] * 6 + ["./" + here, here + "/", here + "/."])
+    k = r.random()
+    if k < 0.25:
+        wd_target = cwd
+    elif k < 0.85:
+        wd_target = r.choice(L.dirs)
+    else:
+        wd_target = _j(cwd, r.choice(["new", "new/w", "../new"]))
+    wd = _spell(r, wd_target, cwd, L) + r.choice(["", "", "", "/"])
+
+    def target(frm):
+        d = r.choice(L.dirs + [cwd, wd_target, L.root_rel])
+        f = r.choice(["data.txt", "data.txt", "x.txt", "new.out", "gen/o.out", "tool.sh"])
+        return _spell(r, _j(d, f), frm, L)
+
+    def existing(frm):
+        d = r.choice(L.dirs + [cwd])
+        return _spell(r, _j(d, r.choice(["data.txt", "x.txt", "tool.sh"])), frm, L)
+
+    paths = [target(wd_target) for _ in range(r.choice([1, 2, 3]))]
+    if r.random() < 0.06:
+        paths.append(r.choice([".", "sub/", "../"]))  # a directory: step() must reject the call
+    lits = [existing(cwd) for _ in range(r.choice([1, 2]))]
+    if r.random() < 0.5:
+        lits.append(_spell(r, r.choice(L.dirs), cwd, L) + r.choice(["", "/"]))
+    pat_dir = _spell(r, r.choice(L.dirs), cwd, L)
+    pattern = r.choice(["", "./"]) + posixpath.join(pat_dir, r.choice(["*.txt", "d*", "*", "s*/", "*/"]))
+    tr = []
+    for _ in range(r.choice([1, 2, 3])):
+        t = _j(r.choice(L.dirs), r.choice(["data.txt", "x.txt", "o.out"]))
+        tr.append(BASE + "/" + t if r.random() < 0.1 else posixpath.relpath("/" + t, "/" + L.root_rel))
+    envval = r.choice(["", "./"]) + posixpath.relpath("/" + _j(r.choice(L.dirs), "data.txt"), "/" + L.root_rel) \
+        + r.choice(["", "", "/"])
+    return {"root": L.root_rel, "cwd": cwd, "root_env": root_env, "here": here_env, "wd": wd, "paths": paths,
+            "apaths": [existing(cwd)] + [target(cwd) for _ in range(2)], "lits": lits, "pattern": pattern,
+            "tr": tr, "envval": envval, "wrapper": r.choice(WRAPPERS),
+            "exe": r.choice(["./tool.sh", "tool.sh", "./sub/../tool.sh", "../" + posixpath.basename(wd_target or "x")
+                             + "/tool.sh", ".//tool.sh"])}
+
+
+@contextlib.contextmanager
+def api_env(L: ApiLayout, case: dict, client):
+    """The process state of a step: cwd, STEPUP_ROOT, HERE, job id, and a captured RPC client."""
+    from stepup.core import api
+
+    old_cwd = os.getcwd()
+    old_env = {k: os.environ.get(k) for k in API_ENV_KEYS}
+    old_client = api._get_cached_rpc_client
+    try:
+        os.chdir(os.path.join(L.base, case["cwd"]))
+        for k in API_ENV_KEYS:
+            os.environ.pop(k, None)
+        os.environ["STEPUP_JOB_I"] = "0"
+        if case["root_env"] is not None:
+            os.environ["STEPUP_ROOT"] = L.sub(case["root_env"])
+        if case["here"] is not None:
+            os.environ["HERE"] = case["here"]
+        api._get_cached_rpc_client = lambda: client
+        yield api
+    finally:
+        api._get_cached_rpc_client = old_client
+        for hist in api._AMEND_HISTORY.values():
+            hist.clear()
+        os.chdir(old_cwd)
+        for k, v in old_env.items():
+            if v is None:
+                os.environ.pop(k, None)
+            else:
+                os.environ[k] = v
+
+
+def make_client():
+    import attrs
+    from stepup.core.rpc import DummySyncRPCClient
+
+    @attrs.define
+    class Capture(DummySyncRPCClient):
+        calls: list = attrs.field(factory=list)
+        step_info: object = None
+
+        def __call__(self, name, /, *args, _rpc_timeout=None, **kwargs):
+            self.calls.append((name, args, kwargs))
+            if name == "amend_step":
+                return True
+            if name == "get_step_info":
+                return self.step_info
+            return None
+
+    return Capture()
+
+
+def _is_dirlike(L, case, p, frm_abs) -> bool:
+    return p.endswith("/") or os.path.isdir(os.path.join(frm_abs, p))
+
+
+def run_api_case(L: ApiLayout, case: dict) -> list[dict]:
+    """Drive the real API functions; one group per observed list of paths.
+
+    group: scope, direction ('to' the director / 'back' to the step), base ('wd' or 'cwd': where the given
+    paths are meant), ordered, items [(given, transform)], got [str] or error (str), unexpected (bool).
+    """
+    from stepup.core.stepinfo import StepInfo
+
+    groups = []
+    client = make_client()
+    cwd_abs = os.path.join(L.base, case["cwd"])
+    wd = L.sub(case["wd"])
+    wd_abs = posixpath.normpath(os.path.join(cwd_abs, wd))
+    paths = [L.sub(p) for p in case["paths"]]
+    n = len(paths)
+    inp, out, vol = paths[:1], paths[1:2], paths[2:]
+
+    def add(scope, direction, base, ordered, items, got=None, error=None, unexpected=False):
+        groups.append({"scope": scope, "direction": direction, "base": base, "ordered": ordered,
+                       "items": items, "got": None if got is None else [str(x) for x in got],
+                       "error": error, "unexpected": unexpected})
+
+    def last(name):
+        hits = [c for c in client.calls if c[0] == name]
+        return hits[-1] if hits else None
+
+    def define_step_groups(scope, exp_inp, exp_out, exp_vol, exp_wd, exc, dirlike):
+        call = last("define_step")
+        if call is None:
+            add(scope, "to", "wd", True, [], error=repr(exc), unexpected=not dirlike)
+            return
+        _job, _cmd, tr_inp, _env, tr_out, tr_vol, tr_wd = call[1][:7]
+        add(scope + ".inp", "to", "wd", True, exp_inp, tr_inp)
+        add(scope + ".out", "to", "wd", True, exp_out, tr_out)
+        add(scope + ".vol", "to", "wd", True, exp_vol, tr_vol)
+        add(scope + ".workdir", "to", "cwd", True, exp_wd, [tr_wd])
+
+    with api_env(L, case, client) as api:
+        tr = lambda xs: [(x, "translate") for x in xs]  # noqa: E731
+        # step()
+        dirlike = any(_is_dirlike(L, case, p, wd_abs) for p in paths)
+        exc = None
+        try:
+            api.step("true", inp=inp, out=out, vol=vol, workdir=wd)
+        except Exception as e:  # noqa: BLE001
+            exc = e
+        define_step_groups("step", tr(inp), tr(out), tr(vol), tr([wd]), exc, dirlike)
+        # one wrapper that goes through step()
+        client.calls.clear()
+        w, exe = case["wrapper"], case["exe"]
+        exc = None
+        try:
+            if w == "run":
+                api.run(f"{exe} arg", inp=inp, out=out, vol=vol, workdir=wd)
+                exp = (([(exe, "translate")] if "/" in exe and not exe.startswith("/") else []) + tr(inp), tr(out), tr(vol))
+            elif w == "plan":
+                api.plan(f"{exe} arg", inp=inp, out=out, vol=vol, workdir=wd)
+                exp = ([(exe, "translate")] + tr(inp), tr(out), tr(vol))
+            elif w == "script":
+                api.script(exe, inp=inp, out=out, vol=vol, workdir=wd)
+                exp = (tr(inp) + [(exe, "exetr")], tr(out), tr(vol))
+            elif w == "call":
+                api.call(exe, "fn", inp=inp, out=out, vol=vol, workdir=wd)
+                exp = ([(exe, "exetr")] + tr(inp), tr(out), tr(vol))
+            elif w == "copy":
+                from stepup.core.path import make_path_out
+                src, dst = L.sub(case["apaths"][0]), L.sub(case["apaths"][1])
+                api.copy(src, dst)
+                exp = (tr([src]), tr([str(make_path_out(src, dst, None))]), [])
+            else:
+                from stepup.core import extapi
+                extapi.record_subprocess("true", 0, workdir=wd)
+                exp = None
+        except Exception as e:  # noqa: BLE001
+            exc = e
+        if w == "record_subprocess":
+            call = last("record_subprocess")
+            if call is not None:
+                add("record_subprocess.workdir", "to", "cwd", True, tr([wd]), [call[2]["workdir"]])
+            else:
+                add("record_subprocess", "to", "cwd", True, [], error=repr(exc), unexpected=True)
+        elif w == "copy":
+            call = last("define_step")
+            if call is not None:
+                add("copy.inp", "to", "cwd", True, exp[0], call[1][2])
+                add("copy.out", "to", "cwd", True, exp[1], call[1][4])
+            else:
+                add("copy", "to", "cwd", True, [], error=repr(exc), unexpected=False)
+        else:
+            bad_exe = "/" not in exe or exc is not None and type(exc).__name__ in ("PathError",) and \
+                not dirlike and w in ("plan", "script", "call") and False
+            if last("define_step") is not None:
+                define_step_groups(w, exp[0], exp[1], exp[2], tr([wd]), exc, dirlike)
+            else:
+                # wrappers also reject an executable without a separator; only a rejection of ordinary
+                # arguments is unexpected
+                exe_dir = os.path.isdir(os.path.join(wd_abs, exe))
+                add(w, "to", "wd", True, [], error=repr(exc), unexpected=not (dirlike or "/" not in exe or exe_dir))
+        # amend()
+        client.calls.clear()
+        apaths = [L.sub(p) for p in case["apaths"]]
+        a_inp, a_out, a_vol = apaths[:1], apaths[1:2], apaths[2:]
+        a_dirlike = any(_is_dirlike(L, case, p, cwd_abs) for p in apaths)
+        exc = None
+        try:
+            api.amend(inp=a_inp, out=a_out, vol=a_vol)
+        except Exception as e:  # noqa: BLE001
+            exc = e
+        call = last("amend_step")
+        if call is not None:
+            add("amend.inp", "to", "cwd", False, tr(a_inp), call[1][1])
+            add("amend.out", "to", "cwd", False, tr(a_out), call[1][3])
+            add("amend.vol", "to", "cwd", False, tr(a_vol), call[1][4])
+        else:
+            add("amend", "to", "cwd", False, [], error=repr(exc), unexpected=not a_dirlike)
+        # static() with literal files, literal directories and one pattern
+        client.calls.clear()
+        from stepup.core.nglob import NamedGlob
+        lits = [L.sub(p) for p in case["lits"]]
+        pattern = L.sub(case["pattern"])
+        ng = NamedGlob(pattern)
+        ng.glob()
+        matches = [str(m) for m in ng.files()]
+        exc = None
+        try:
+            api.static(*lits, pattern)
+        except Exception as e:  # noqa: BLE001
+            exc = e
+        call = last("declare_static")
+        if call is not None:
+            _job, tr_trees, tr_files, tr_patterns = call[1]
+            is_dir = lambda p: os.path.isdir(os.path.join(cwd_abs, p))  # noqa: E731
+            add("static.trees", "to", "cwd", False, tr([p for p in lits + matches if is_dir(p)]), tr_trees)
+            add("static.files", "to", "cwd", False, tr([p for p in lits + matches if not is_dir(p)]), tr_files)
+            if len(tr_patterns) == 1:
+                add("static.pattern", "to", "cwd", True, [(pattern, "keeptr")], [tr_patterns[0][0]])
+                add("static.matches", "to", "cwd", False, [(m, "keeptr") for m in matches], tr_patterns[0][1])
+            else:
+                add("static.pattern", "to", "cwd", True, [(pattern, "keeptr")], [p for p, _ in tr_patterns])
+        else:
+            add("static", "to", "cwd", False, [], error=repr(exc), unexpected=True)
+        # glob()
+        client.calls.clear()
+        exc = None
+        try:
+            api.glob(pattern)
+        except Exception as e:  # noqa: BLE001
+            exc = e
+        call = last("register_glob")
+        if call is not None:
+            add("glob.pattern", "to", "cwd", True, [(pattern, "keeptr")], [call[1][1]])
+            add("glob.matches", "to", "cwd", False, [(m, "keeptr") for m in matches], call[1][3])
+        else:
+            add("glob", "to", "cwd", False, [], error=repr(exc), unexpected=True)
+        # get_info(): the director reports paths relative to the root, workdir = where this step runs
+        client.calls.clear()
+        labels = [L.sub(t) for t in case["tr"]]
+        tr_workdir = posixpath.relpath(cwd_abs, posixpath.normpath(
+            os.path.join(cwd_abs, os.environ["STEPUP_ROOT"]) if "STEPUP_ROOT" in os.environ else cwd_abs))
+        client.step_info = StepInfo("true", labels[:1], [], labels[1:2], labels[2:], tr_workdir)
+        try:
+            info = api.get_info()
+            add("get_info.inp", "back", "cwd", False, [(t, "back") for t in labels[:1]], info.inp)
+            add("get_info.out", "back", "cwd", False, [(t, "back") for t in labels[1:2]], info.out)
+            add("get_info.vol", "back", "cwd", False, [(t, "back") for t in labels[2:]], info.vol)
+        except Exception as e:  # noqa: BLE001
+            add("get_info", "back", "cwd", False, [], error=repr(e), unexpected=True)
+        # getenv(back=True) and getenv(multi=True, back=True)
+        os.environ["C20VAR"] = case["envval"]
+        try:
+            add("getenv.back", "back", "cwd", True, [(case["envval"], "keepback")],
+                [api.getenv("C20VAR", back=True)])
+            os.environ["C20VAR"] = case["envval"] + ":" + labels[0]
+            vals = [case["envval"], labels[0]]
+            add("getenv.multi", "back", "cwd", True, [(v, "keepback") for v in vals],
+                api.getenv("C20VAR", back=True, multi=True))
+        except Exception as e:  # noqa: BLE001
+            add("getenv", "back", "cwd", True, [], error=repr(e), unexpected=not is_root_spelling(case["envval"]))
+    return groups
+
+
+def api_lines(L: ApiLayout, case: dict, group: dict) -> list[str]:
+    """Model requests for the items of one group."""
+    cwd_abs = os.path.join(L.base, case["cwd"])
+    env = f"{hexs(cwd_abs)} {opt(L.sub(case['root_env']))} {opt(case['here'])}"
+    wd = L.sub(case["wd"]) if group["base"] == "wd" else "."
+    lines = []
+    for given, transform in group["items"]:
+        if transform == "translate":
+            lines.append(f"c20 translate {env} {hexs(given)} {hexs(wd)}")
+        elif transform == "exetr":
+            lines.append(f"c20 exetr {env} {hexs(given)} {hexs(wd)}")
+        elif transform == "keeptr":
+            lines.append(f"c20 keeptr {env} {hexs(given)}")
+        elif transform == "back":
+            lines.append(f"c20 back {env} {hexs(given)} {hexs('.')}")
+        elif transform == "keepback":
+            lines.append(f"c20 keepback {env} {hexs(given)}")
+    return lines
+
+
+def _model_value(ans: str):
+    if ans.startswith("ok "):
+        return unhexs(ans[3:])
+    if ans.startswith("err"):
+        return ans
+    return unhexs(ans)
+
+
+def api_layouts():
+    return [ApiLayout(root) for root in API_ROOTS]
+
+
+async def correspond_api(ctx):
+    """Recorded / handed-back paths of the real API functions against the model of translate."""
+    r = ctx.rng("api")
+    st = ctx.stats
+    layouts = api_layouts()
+    try:
+        jobs = []
+        for _ in range(ctx.budget(700, 12000)):
+            L = r.choice(layouts)
+            case = gen_api_case(r, L)
+            for g in run_api_case(L, case):
+                jobs.append((L, case, g, api_lines(L, case, g)))
+        answers = common.run_driver([ln for j in jobs for ln in j[3]]) if jobs else []
+        pos = 0
+        for L, case, g, lines in jobs:
+            ans = answers[pos:pos + len(lines)]
+            pos += len(lines)
+            scope = "api." + g["scope"]
+            st.count(scope)
+            if g["error"] is not None:
+                st.count("api.rejected" if not g["unexpected"] else "api.rejected-unexpected")
+                st.case((scope, repr(case)), False)
+                if g["unexpected"]:
+                    ctx.disagree(scope, case, "accepted", g["error"])
+                continue
+            model = [_model_value(a) for a in ans]
+            got = list(g["got"])
+            if not g["ordered"]:
+                model, got = sorted(set(model)), sorted(set(got))
+            st.case((scope, repr(case["cwd"]), repr(g["items"]), repr(case["wd"]), repr(case["here"]),
+                     repr(case["root_env"])), bool(g["items"]))
+            if model != got:
+                ctx.disagree(scope, {"case": case, "given": g["items"]}, model, got)
+            elif len(st.samples) < 9 and g["items"] and st.distribution[scope] % 41 == 7:
+                st.sample({"function": scope, "cwd": case["cwd"], "root": case["root"], "HERE": case["here"],
+                           "workdir": case["wd"], "given": [i[0] for i in g["items"]], "observed": got})
+    finally:
+        for L in layouts:
+            L.close()
+
+
+def _strip_affixes(p: str) -> str:
+    return posixpath.normpath(p)
+
+
+def check_api_case(L: ApiLayout, case: dict) -> list[tuple[str, str, object, object]]:
+    """The property on the API level, decided on the real tree without the model."""
+    bad = []
+    cwd_abs = os.path.join(L.base, case["cwd"])
+    root_env = L.sub(case["root_env"])
+    root = loc(cwd_abs, root_env) if root_env is not None else cwd_abs
+    wd = L.sub(case["wd"])
+    for g in run_api_case(L, case):
+        scope = g["scope"]
+        if g["error"] is not None:
+            if g["unexpected"]:
+                bad.append((f"api-{scope}-raises", f"{scope}() raises for ordinary arguments", g["error"], "accepted"))
+            continue
+        frm = posixpath.normpath(os.path.join(cwd_abs, wd)) if g["base"] == "wd" else cwd_abs
+        wd_abs_arg = g["base"] == "wd" and wd.startswith("/")
+        expected, got = [], list(g["got"])
+        if g["direction"] == "to":
+            for given, transform in g["items"]:
+                if transform == "exetr":
+                    body = given[:-1] if given.endswith("/") else given
+                    core = posixpath.normpath(given)
+                    given_eff = ("./" if body.startswith("./") else "") + core
+                else:
+                    given_eff = given
+                full = posixpath.normpath(os.path.join(frm, given_eff))
+                if given_eff.startswith("/") or wd_abs_arg:
+                    ref = "/" + full.lstrip("/") if full.startswith("//") and not full.startswith("///") and False \
+                        else full
+                    ref = posixpath.normpath(given_eff) if given_eff.startswith("/") else full
+                else:
+                    ref = posixpath.relpath(full, root)
+                if transform == "keeptr":
+                    lead, trail = flags(given)
+                    ref = ("./" if lead else "") + ref + ("/" if trail else "")
+                expected.append(ref)
+        else:
+            for given, transform in g["items"]:
+                if given.startswith("/"):
+                    ref = posixpath.normpath(given)
+                else:
+                    ref = posixpath.relpath(posixpath.normpath(os.path.join(root, given)), cwd_abs)
+                if transform == "keepback":
+                    lead, trail = flags(given)
+                    ref = ("./" if lead else "") + ref + ("/" if trail else "")
+                expected.append(ref)
+        if not g["ordered"]:
+            expected, got = sorted(set(expected)), sorted(set(got))
+        what_dir = "to the director" if g["direction"] == "to" else "back to the step"
+        if len(expected) != len(got):
+            bad.append((f"api-{scope}-paths-lost", f"{scope}: the number of paths handed {what_dir} differs",
+                        got, expected))
+            continue
+        for (given, _t), ref, rec in zip(g["items"], expected, got) if g["ordered"] else ():
+            pass
+        # same file, decided by the file system (for ordered groups item by item, else as sets of locations)
+        if g["direction"] == "to":
+            meant = [loc(frm, given) for given, _ in g["items"]]
+            are = [loc(root, rec) for rec in g["got"]]
+        else:
+            meant = [loc(root, given) for given, _ in g["items"]]
+            are = [loc(cwd_abs, rec) for rec in g["got"]]
+        if not g["ordered"]:
+            meant, are = sorted(set(meant)), sorted(set(are))
+        if meant != are:
+            bad.append((f"api-{scope}-wrong-file",
+                        f"{scope}: a path handed {what_dir} designates another file than the one meant",
+                        {"given": [i[0] for i in g["items"]], "observed": g["got"], "designate": are}, meant))
+        elif expected != got:
+            bad.append((f"api-{scope}-label-not-canonical",
+                        f"{scope}: the path handed {what_dir} is not the normalized path relative to "
+                        f"{'the root' if g['direction'] == 'to' else 'the working directory of the step'}",
+                        {"given": [i[0] for i in g["items"]], "observed": g["got"]}, expected))
+    return bad
 
 
 # ---------------------------------------------------------------------------------------------
@@ -526,12 +1029,36 @@ async def search(ctx):
                 _report(ctx, sig, what, observed, expected, {"workdir": wd})
     finally:
         L.close()
+    layouts = api_layouts()
+    try:
+        ra = ctx.rng("api-oracle")
+        for _ in range(ctx.budget(900, 15000)):
+            LA = ra.choice(layouts)
+            case = gen_api_case(ra, LA)
+            kinds["api-cases"] = kinds.get("api-cases", 0) + 1
+            ctx.stats.case(("api-oracle", repr(case)))
+            for sig, what, observed, expected in check_api_case(LA, case):
+                kinds[sig] = kinds.get(sig, 0) + 1
+                _report(ctx, sig, what, observed, expected, case)
+    finally:
+        for LA in layouts:
+            LA.close()
     ctx.extra["oracle_checks"] = kinds
 
 
 async def replay(ctx, detail):
     d = detail.get("detail", {})
     case = d.get("case", {})
+    if "wrapper" in case:
+        LA = ApiLayout(case["root"])
+        try:
+            failed = check_api_case(LA, case)
+            hits = [f for f in failed if f[0] == detail.get("signature")] or failed
+            return {"reproduced": bool(hits), "signature": detail.get("signature"),
+                    "failed_checks": [{"signature": f[0], "what": f[1], "observed": f[2], "expected": f[3]}
+                                      for f in hits]}
+        finally:
+            LA.close()
     L = Layout()
     try:
         if {"cwd", "root_env", "here", "wd", "p"} <= set(case):
